@@ -21,6 +21,7 @@ import (
 	"math"
 	"os"
 	"reflect"
+	"runtime/debug"
 	"sort"
 	"strings"
 	"sync"
@@ -71,8 +72,9 @@ func fatal(format string, args ...interface{}) {
 // unsafe.Pointer}, storage points to a []unsafe.Pointer, each entry to an
 // interface{} holding a *counterValue{Value int64}.
 type peeker struct {
-	ids  map[uintptr]int
-	keep []interface{} // keeps every instance seen alive, so addresses are never reused
+	blind bool
+	ids   map[uintptr]int
+	keep  []interface{} // keeps every instance seen alive, so addresses are never reused
 }
 
 type cell struct {
@@ -94,6 +96,10 @@ func (p *peeker) scope(s *metrics.Scope) (cells []cell, isNil bool) {
 		}
 		v := *(*interface{})(e)
 		rv := reflect.ValueOf(v)
+		if rv.Kind() != reflect.Ptr || rv.Elem().Kind() != reflect.Struct || rv.Elem().NumField() != 1 ||
+			rv.Elem().Field(0).Kind() != reflect.Int64 {
+			panic("c20: unexpected instance representation")
+		}
 		addr := rv.Pointer()
 		id, ok := p.ids[addr]
 		if !ok {
@@ -106,10 +112,82 @@ func (p *peeker) scope(s *metrics.Scope) (cells []cell, isNil bool) {
 	return cells, false
 }
 
+// forceBlind (env C20_BLIND=1) exercises the fallback used when the storage
+// layout of Scope is no longer the one the peeker knows.
+var forceBlind = os.Getenv("C20_BLIND") == "1"
+
+// probeLayout checks, on a scratch scope, that the peeker still reads what the
+// public API wrote. A fault while probing is a "no".
+func probeLayout() (ok bool) {
+	if forceBlind {
+		return false
+	}
+	t := reflect.TypeOf(metrics.Scope{})
+	if t.NumField() != 1 || t.Field(0).Type.Kind() != reflect.UnsafePointer || t.Size() != unsafe.Sizeof(uintptr(0)) {
+		return false
+	}
+	old := debug.SetPanicOnFault(true)
+	defer debug.SetPanicOnFault(old)
+	defer func() {
+		if recover() != nil {
+			ok = false
+		}
+	}()
+	var s metrics.Scope
+	pk := &peeker{ids: map[uintptr]int{}}
+	if _, isNil := pk.scope(&s); !isNil {
+		return false
+	}
+	if len(ctrs) == 0 {
+		s.Reset(&metrics.Scope{})
+		cells, isNil := pk.scope(&s)
+		return !isNil && len(cells) == 1 && !cells[0].some
+	}
+	last := len(ctrs) - 1
+	ctrs[last].Incr(&s, 12345)
+	cells, isNil := pk.scope(&s)
+	if isNil || len(cells) != regSize() {
+		return false
+	}
+	for i, c := range cells {
+		if c.some != (i == last+1) {
+			return false
+		}
+	}
+	return cells[last+1].val == 12345
+}
+
+// blindCells observes a scope through its public GobEncode only: presence and
+// value per metric. This creates the scope's list, which is invisible as long
+// as no counter is registered in mid-case (blind cases never do).
+func blindCells(s *metrics.Scope) []cell {
+	p, err := s.GobEncode()
+	if err != nil {
+		fatal("GobEncode: %v", err)
+	}
+	pl, err := parsePayload(p)
+	if err != nil {
+		fatal("parsing payload: %v", err)
+	}
+	cells := make([]cell, len(pl))
+	for i, z := range pl {
+		if z != nil {
+			cells[i] = cell{true, i, *z} // identity unknown: the metric index stands in
+		}
+	}
+	return cells
+}
+
 func (p *peeker) dump(scopes []*metrics.Scope) string {
 	ss := make([]string, len(scopes))
 	for i, s := range scopes {
-		cells, isNil := p.scope(s)
+		var cells []cell
+		var isNil bool
+		if p.blind {
+			cells = blindCells(s)
+		} else {
+			cells, isNil = p.scope(s)
+		}
 		if isNil {
 			ss[i] = "None"
 			continue
@@ -173,10 +251,18 @@ func craftPayload(pl []*int64) ([]byte, bool) {
 			if len(ctrs) == 0 {
 				return nil, false
 			}
+			// the instance type is unexported; take it from a real payload
 			var s metrics.Scope
 			ctrs[0].Incr(&s, 1)
-			cells := *(*[]unsafe.Pointer)(atomic.LoadPointer((*unsafe.Pointer)(unsafe.Pointer(&s))))
-			cvType = reflect.TypeOf(*(*interface{})(cells[1])).Elem()
+			p, err := s.GobEncode()
+			if err != nil {
+				fatal("GobEncode: %v", err)
+			}
+			var l []interface{}
+			if err := gob.NewDecoder(bytes.NewReader(p)).Decode(&l); err != nil || len(l) < 2 || l[1] == nil {
+				fatal("cannot find the instance type: %v", err)
+			}
+			cvType = reflect.TypeOf(l[1]).Elem()
 		}
 		v := reflect.New(cvType)
 		v.Elem().Field(0).SetInt(*z)
@@ -388,16 +474,20 @@ func (wr wire) payload() []byte {
 	return rs.p
 }
 
-func runOps(d Desc) (term string, kinds map[string]int, nsteps int, reg0 int) {
+func runOps(d Desc) (term string, kinds map[string]int, nsteps int, reg0 int, blind bool) {
 	ensureReg(d.Reg0)
 	reg0 = regSize()
-	w := &world{pk: &peeker{ids: map[uintptr]int{}}}
+	blind = !probeLayout()
+	w := &world{pk: &peeker{blind: blind, ids: map[uintptr]int{}}}
 	for i := 0; i < d.NScopes; i++ {
 		w.scopes = append(w.scopes, new(metrics.Scope))
 	}
 	kinds = map[string]int{}
 	var steps []string
 	for _, o := range d.Ops {
+		if blind && o.K == "register" {
+			continue // observation through GobEncode would fix the list lengths early
+		}
 		ot, out, ok := w.apply(o)
 		if !ok {
 			continue
@@ -405,13 +495,22 @@ func runOps(d Desc) (term string, kinds map[string]int, nsteps int, reg0 int) {
 		kinds[o.K]++
 		if out == "RPanic" {
 			kinds["panic"]++
+			// a panic leaves the scopes involved half-updated, in an order that depends
+			// on the iteration order of the Go loops: wipe them (so does the model)
+			switch o.K {
+			case "merge", "reset":
+				w.scopes[o.S].Reset(nil)
+				w.scopes[o.U].Reset(nil)
+			default:
+				w.scopes[o.S].Reset(nil)
+			}
 		}
 		if out == "RIncompatible" {
 			kinds["incompatible"]++
 		}
 		steps = append(steps, vf.App("mkObs", ot, out, w.pk.dump(w.scopes)))
 	}
-	return vf.App("COps", vf.Nat(reg0), vf.Nat(d.NScopes), vf.List(steps)), kinds, len(steps), reg0
+	return vf.App("COps", vf.Bool(blind), vf.Nat(reg0), vf.Nat(d.NScopes), vf.List(steps)), kinds, len(steps), reg0, blind
 }
 
 // ---------------------------------------------------------------- end-to-end programs
@@ -764,9 +863,10 @@ func main() {
 			os.Exit(2)
 		}
 	} else {
-		n, lateCount, ne2e := 300, 8, 24
+		// the case file costs ~35 ms of coqc per op case (parsing): keep quick small
+		n, lateCount, ne2e := 180, 6, 24
 		if opts.Tier == "thorough" {
-			n, lateCount, ne2e = 3000, 16, 240
+			n, lateCount, ne2e = 2400, 12, 240
 		}
 		n *= opts.Scale
 		ne2e *= opts.Scale
@@ -798,11 +898,14 @@ func main() {
 			}
 		}
 	}
-	maxReg, nlate, npanic, nincompat := 0, 0, 0, 0
+	maxReg, nlate, npanic, nincompat, nblind := 0, 0, 0, 0, 0
 	for _, d := range descs {
 		switch d.Kind {
 		case "ops":
-			term, kinds, nsteps, reg0 := runOps(d)
+			term, kinds, nsteps, reg0, blind := runOps(d)
+			if blind {
+				nblind++
+			}
 			nontriv := ""
 			if kinds["incr"] > 0 && kinds["merge"]+kinds["reset"]+kinds["decode"]+kinds["decodepl"] > 0 {
 				nontriv = vf.Hash(term)
@@ -841,6 +944,10 @@ func main() {
 	out.Extra["late_registration_cases"] = nlate
 	out.Extra["observed_panics"] = npanic
 	out.Extra["observed_incompatible"] = nincompat
+	out.Extra["blind_cases"] = nblind
+	if nblind > 0 {
+		out.Notes = append(out.Notes, fmt.Sprintf("%d op cases were observed through GobEncode only: the storage layout of metrics.Scope is not the one the harness can read directly", nblind))
+	}
 	if err := out.Write(opts.Out, opts); err != nil {
 		fmt.Fprintln(os.Stderr, err)
 		os.Exit(2)
